@@ -166,8 +166,16 @@ class Ctx:
     def build_replayer(self, release=False):
         log = os.path.join(self.logs, "replayer-build%s.log" % ("-rel" if release else ""))
         tdir = os.path.join(self.scratch, "replay-target")
+        src = REPLAY_DIR
+        if REPO != "/repo":
+            # checks may be pointed at another checkout (VERIF_REPO): build the replayer against that tree
+            src = os.path.join(self.scratch, "replay-src")
+            if not os.path.exists(src):
+                shutil.copytree(REPLAY_DIR, src, ignore=shutil.ignore_patterns("target"))
+                t = open(os.path.join(src, "Cargo.toml")).read().replace('path = "/repo"', 'path = "%s"' % REPO)
+                open(os.path.join(src, "Cargo.toml"), "w").write(t)
         cmd = ["cargo", "build", "--offline", "--target-dir", tdir] + (["--release"] if release else [])
-        rc, to, wall = run(cmd, REPLAY_DIR, self.env, 900, 16, log)
+        rc, to, wall = run(cmd, src, self.env, 900, 16, log)
         if rc != 0:
             return None
         return os.path.join(tdir, "release" if release else "debug", "fi-replay")
@@ -449,14 +457,21 @@ def run_property(ctx, spec, t_start):
                 inconclusive.append("%s: witness does not replay natively (rc=%d: %s)" % (name, rc, out.strip()[-200:]))
             # own-oracle failures inside a witness harness are handled like hold failures below
         if role == "panic":
-            exp = job["expect_panic"]
-            got = [d for d in info["failed_own"] + info["failed_other"] if exp in d]
-            sentinel_failed = any(d.startswith("SENTINEL") for d in info.get("special", []))
-            if sentinel_failed:
-                # a second result was obtainable: the future did not panic on every path
-                violations.append(("%s future yields a second result instead of panicking (%s)" % (prop, name), None, name))
-            elif not got:
-                inconclusive.append("%s: expected panic '%s' not reported" % (name, exp))
+            # poll after completion: every path must panic before the SENTINEL (reported UNREACHABLE by the reach check)
+            sent = [c for c in r["checks"] if c["desc"].startswith("SENTINEL")]
+            panics = [c for c in r["checks"] if c["status"] == "FAILURE" and not c["desc"].startswith("SENTINEL")
+                      and ("expect_failed" in c["name"] or "panic" in c["name"] or "panic" in c["desc"] or "placeholder" in c["desc"])]
+            if sent and sent[0]["status"] == "FAILURE":
+                path = os.path.join(OUT_DIR, "replays", "%s-%s.json" % (prop, name.replace("::", "_")))
+                os.makedirs(os.path.dirname(path), exist_ok=True)
+                json.dump({"property": prop, "harness": job["harness"], "kind": "repoll",
+                           "oracle": "polling a completed future yields a second result instead of panicking",
+                           "replay_cmd": "cargo kani --harness %s --exact (hooks on); natively: poll the future twice" % job["harness"]},
+                          open(path, "w"), indent=1)
+                violations.append(("%s a completed future was polled again and did not panic" % prop, path, name))
+            elif not sent or sent[0]["status"] != "UNREACHABLE" or not panics:
+                inconclusive.append("%s: expected 'panic reachable, sentinel unreachable', got sentinel=%s panics=%d" % (
+                    name, sent[0]["status"] if sent else None, len(panics)))
             continue
         if role == "step" and info["failed_own"]:
             step_cex.append((name, info["failed_own"]))
@@ -554,7 +569,7 @@ def write_evidence(ctx, spec, results, samples, t_start, status, violations, val
         if job["role"] == "witness":
             dec = info["status"] == "decided" and "WITNESS reached" in info.get("special", [])
         if job["role"] == "panic":
-            dec = info["status"] == "decided"
+            dec = info["status"] == "decided" and any(c["desc"].startswith("SENTINEL") and c["status"] == "UNREACHABLE" for c in r["checks"])
         if dec and not job.get("bonus"):
             discharged += 1
         if not dec and info["status"] in ("timeout", "oom"):
